@@ -901,6 +901,29 @@ def r_tmp_apply(ctx, rule='R-TMP-APPLY'):
             ctx.check(ok_d, rule, f.path + '/deletes', f.loc(), 'every id of to_delete() is deleted under Key::tree(self.index, id)',
                       'in `%s` some id of a TmpNodesReader::to_delete() is not deleted from the database' % f.path)
     ctx.floor(rule, 'functions applying a TmpNodesReader', n, 3)
+    # pending node updates are written back before the trees are read again: a batch loop that snapshots the tree nodes
+    # (ImmutableTrees) at the top of every round must have applied the previous round's TmpNodesReader first, otherwise
+    # the next round works on stale nodes and overwrites the previous round's update of the same node
+    for f in F.lib_fns():
+        if not f.path.startswith('writer::Writer'):
+            continue
+        prods = []
+        for c in f.calls():
+            g = F.fn(c.callee)
+            if (g is not None and 'TmpNodesReader' in g.ret_ty()) or c.callee == 'parallel::TmpNodes::<DE>::into_bytes_reader':
+                prods.append(c)
+        snaps = [c for c in f.calls() if c.callee.startswith('parallel::ImmutableTrees') and c.callee.endswith(('::new', '::sub_tree_from_id'))]
+        for pc in prods:
+            later = [sc for sc in snaps if sc.bb in f.reachable(pc.target)]
+            if not later:
+                continue
+            entries = [c.bb for c in f.calls() if c.bb != pc.bb and c.args and paths.mentions_call(c.arg_term(0), pc.bb) and
+                       (c.callee.endswith(('::iter', 'IntoIterator::into_iter', 'TmpNodesReader::to_insert')))
+                       and any(x.callee == 'parallel::TmpNodesReader::to_insert' and (x.bb == c.bb or x.bb in f.reachable(c.target)) for x in f.calls())]
+            good = bool(entries) and paths.must_pass(f, pc.target, [sc.bb for sc in later], entries)
+            ctx.check(good, rule, f.path + '/applied-before-next-round', pc.loc(), 'the nodes produced by a round are written back before the next round snapshots the trees',
+                      'in `%s` the tree nodes are read again (%s) before the nodes produced by `%s` have been written back: the next round works on stale nodes and its write-back overwrites the previous round\'s changes (items vanish from trees)' % (
+                          f.path, short(later[0].callee), short(pc.callee)))
     # every into_bytes_reader in the writer is followed by to_insert
     for f in F.lib_fns():
         if not f.path.startswith('writer::Writer'):
